@@ -28,8 +28,17 @@ func vfhC08TWKBCountField() {
 	}
 	tail := vfBytes("t", 2)
 	buf := []byte{byte(kind), meta}
-	buf = append(buf, v...)
+	if nv == 10 && vfBool("size-field") {
+		// the arbitrary varint is the SIZE field (more is read after it: the count)
+		buf[1] |= 0x02
+		buf = append(buf, v...)
+		buf = append(buf, 1)
+	} else {
+		buf = append(buf, v...)
+	}
 	buf = append(buf, tail...)
+	_, _, _ = UnmarshalTWKBSize(buf)
+	_, _, _ = UnmarshalTWKBEnvelope(buf)
 	g, err := UnmarshalTWKB(buf, NoValidate{})
 	if err == nil {
 		_ = g.AsBinary()
